@@ -189,7 +189,10 @@ def evaluate(ctx, cases):
                 labels = lab_flat + ['extra']
             copies = [t.copy() for t in flat]
             try:
-                res = implutil.quiet(flatten_dfs, tabs, (np.array(labels) if c['seed'] % 3 == 1 and not c['bad_labels'] else labels)); err = None      # labels as a list or as an ndarray
+                lv = labels
+                if not c['bad_labels']:      # labels as a (nested) list, a C-ordered ndarray or a FORTRAN-ordered ndarray (a transposed label table)
+                    lv = [labels, np.array(labels), np.asfortranarray(np.array(labels))][c['seed'] % 3]
+                res = implutil.quiet(flatten_dfs, tabs, lv); err = None
             except Exception as e:
                 res, err = None, type(e).__name__
             if c['bad_labels']:
